@@ -9,6 +9,10 @@
      Publish    new_data (n calls in one loop turn) + the immediate wake-up of on_timer
      TimerFire  the TimeoutError branch of on_timer
      Tick       virtual time passes (no code runs)
+     PublishThenRecv   two critical sections with no run of the timer task between them: new_data (n calls)
+                and then sync_handler - the application publishes from a callback of the very loop iteration
+                in which a sync Interest reaches the handler (the wake-up of on_timer is only queued by then).
+                The handler works on the published state; the announcement of the publication is part of the step
    The bodies of RecvSV / TimerFire follow the code (two loops over the entries, need_notif,
    aggregate, the `necessary` loop); the properties further down are written declaratively
    (entry-wise maximum, "heard" = merge of the accepted vectors of the suppression period) and
@@ -25,7 +29,9 @@
      * how many sync Interests a burst of n same-instant publications produces (1..n, the last
        one carrying the final vector)         - DESIGN 9, interpretation decision for C18
      * whether a vector with a damaged entry (no node id / no sequence number) is taken with
-       the damaged entries dropped or ignored as a whole (choice "reject")
+       the damaged entries dropped or ignored as a whole (choice "reject"); the same for a vector in an
+       encoding that is not the canonical one (kind "svl": also open in Mode "impl" - the library's decoder
+       takes some of them and not others)
    Mode = "impl" resolves the first four the way sync.py does (need_notif; SupBase+j / SyncBase+j
    ticks with j the patched secrets.randbits sample; always emit; one Interest per burst) so that
    stage B can replay the graph deterministically.
@@ -39,8 +45,16 @@
        (publish clause: emits anyway); RecvSV never ends it
      * every sync Interest emitted at an expiry carries the full local vector
      * a packet and an expiry at the same instant: both orders are behaviours (RecvSV is enabled at
-       timer = 0, before TimerFire; and TimerFire first); the interleaving *inside one loop
-       iteration* (event set and timeout cancelled together) is not modelled
+       timer = 0, before TimerFire; and TimerFire first)
+     * a publication and a packet inside one loop iteration (PublishThenRecv; the other order is RecvSV with
+       r = 0 followed by Publish: nothing is pending between them). "Publishing ... promptly emits a sync
+       Interest carrying the full vector" holds whatever is heard before the timer task gets to run: the
+       outcome is that of Publish followed by RecvSV on the published state (an over-claim is judged against
+       the published sequence number), and the announcement is made within the step. Left open (Mode "open"):
+       whether the Interest(s) go out before the packet is handled (choice "early": they carry the vector as
+       published; the rest is RecvSV, suppression included) or after it (choice "late": they carry the merged
+       vector; a suppression period the packet started may end with that announcement - "ends at a
+       publication" - or go on). Mode "impl": "late", one Interest, Steady (on_timer's expiry branch)
 
    Vectors that name one node more than once (nothing in the wire format excludes them; a correct peer
    never sends one). What such a vector denotes is fixed only as far as the statement of C18 fixes it:
@@ -59,25 +73,31 @@
    recently ignored / accepted, so that such histories are witnessed (AgainAccepted, AgainOutdated) in the
    model and counted in the recorded executions; no action reads it.
 
-   Named deviations (known findings; Dev = {} in stage A, both in B / C so that a path or trace
+   Named deviations (known findings; Dev = {} in stage A, all of them in B / C so that a path or trace
    that needs one is reported and the rest of it is still checked):
      "aggLocal"  aggregate() merges the received vector with local_sv instead of agg_sv
                  (variable agg follows the code; TimerFire choice "devAgg" decides with it)
      "noSeq"     an entry without sequence number raises TypeError in the middle of the merge
                  loop: entries before it are merged, no callback, nothing else happens
-                 (RecvSV choice "devNoSeq")                                              *)
+                 (RecvSV choice "devNoSeq")
+     "postponed" sync_handler, run between new_data() and the wake-up of the timer task, overwrites the
+                 next_sync_timing = 0 that new_data() left (both of its timer branches): the publication is
+                 not announced in the step but at the expiry the handler scheduled - a whole sync interval
+                 or a suppression period later (PublishThenRecv choice "devPostponed")                *)
 EXTENDS Integers, Sequences, FiniteSets, TLC
 
 CONSTANTS NodeOrder,   \* sequence of node ids (strings); NodeOrder[1] is this node
           MaxSeq,      \* largest sequence number in the model
           InitSeqs,    \* possible last_used_seq_num values
           Packets,     \* received packets quantified over by Next
+          PrePackets,  \* ... by Next for PublishThenRecv (the replay graph takes a smaller alphabet there)
           Mode,        \* "open" | "impl"
-          Dev,         \* subset of {"aggLocal", "noSeq"}
+          Dev,         \* subset of {"aggLocal", "noSeq", "postponed"}
           SupBase, SyncBase, Jitter,   \* impl mode: timers are SupBase+j / SyncBase+j ticks, j \in Jitter
           MaxT,        \* open mode: timers range over 0..MaxT
           MaxBurst,    \* same-instant publications per Publish
           MaxReact,    \* publications the application may make inside one missing-data callback
+          MaxPre,      \* publications made just before a packet is handled, in the same loop iteration (0: no PublishThenRecv)
           MaxEv,       \* bound on the number of events (0 = unbounded)
           TickEnds,    \* TRUE: time only advances to the expiry or to one tick before it (replay graph)
           UseHint,     \* TRUE only in SvsTrace: see `hint`
@@ -101,6 +121,10 @@ vars == <<local, selfSeq, state, heard, agg, timer, out, missed, last, nev, mem,
 \* `last` is a pure history variable (no action reads it): TLC identifies states up to View, and
 \* still evaluates every action property on every transition with the real last'
 View == <<local, selfSeq, state, heard, agg, timer, out, missed, nev, mem>>
+\* out and missed are outputs of a step too: no action reads them, and every property speaks about out' / missed'
+\* only (TLC evaluates action properties on every transition, new successor or not). Exhaustive runs identify
+\* states up to ViewA; the replay graph (whose states are compared with the instance) keeps View
+ViewA == <<local, selfSeq, state, heard, agg, timer, nev, mem>>
 
 \* values for NodeOrder (cfg: NodeOrder <- Nodes3)
 Nodes2 == <<"self", "n1">>
@@ -125,7 +149,12 @@ Newer(f, g) == \E n \in Nodes : f[n] > g[n]          \* f is newer than g in som
 (* Packets. p = [k |-> kind, es |-> <<[id |-> node | NoId | RootId, seq |-> Nat | NoSeq], ...>>]
    Nodes are abstract here; the executor gives them unusual but decodable names (component types 0,
    65535, 65536, 2^32, empty values, non-UTF-8 bytes): C18 holds for them like for any node.
-   kinds other than "sv" are sync Interests whose vector cannot be obtained at all.
+   kind "svl" is a well-formed vector in an encoding only a lenient reader gets (numbers in a non-minimal
+   3 / 5 / 9-octet form, stray octets or unknown elements after or between the known ones): C18 does not say
+   how strict a reader has to be, so it is a damaged vector - taken as what it says, or ignored as a whole.
+   The other kinds are sync Interests whose vector cannot be obtained at all; among them "cut": the encoding
+   of a vector cut at some octet - inside an entry, a name, a sequence number, a multi-octet Type or Length
+   number (the executor takes the members of both classes in turn). They must be ignored entirely, and quietly.
    The finite packet alphabets the model checker quantifies over are in SvsMC.tla (kept out of this
    module because TLC evaluates every constant definition at start-up, and SvsTrace instantiates
    this module with 5 nodes and sequence numbers up to 24).                                   *)
@@ -133,13 +162,14 @@ Newer(f, g) == \E n \in Nodes : f[n] > g[n]          \* f is newer than g in som
 HasId(e) == e.id \notin {NoId, RootId}
 HasSeq(e) == e.seq # NoSeq
 Good(e) == HasId(e) /\ HasSeq(e)
-Decodable(p) == p.k = "sv" /\ Len(p.es) > 0
+Lenient(p) == p.k = "svl"
+Decodable(p) == p.k \in {"sv", "svl"} /\ Len(p.es) > 0
 \* the well-formed entries of p, and how many of them name node n
 GoodEs(p) == SelectSeq(p.es, Good)
 Occ(es, n) == { i \in 1..Len(es) : es[i].id = n }
 HasDupEs(es) == \E i \in 1..Len(es) : \E j \in (i+1)..Len(es) : es[i].id = es[j].id
 HasDup(p) == HasDupEs(GoodEs(p))
-Damaged(p) == (\E i \in 1..Len(p.es) : ~Good(p.es[i])) \/ HasDup(p)
+Damaged(p) == (\E i \in 1..Len(p.es) : ~Good(p.es[i])) \/ HasDup(p) \/ Lenient(p)
 \* what p says about node n: the sequence numbers of all its well-formed entries for n
 SaysEs(es) == [n \in Nodes |-> { es[i].seq : i \in Occ(es, n) }]
 Says(p) == SaysEs(GoodEs(p))
@@ -209,21 +239,30 @@ KeepTimer == IF Mode = "impl" THEN {timer} ELSE AnyTimer
 Count == nev' = IF MaxEv = 0 THEN 0 ELSE nev + 1
 More == MaxEv = 0 \/ nev < MaxEv
 
+(* sync_handler reads and writes local_sv, self_seq (through the callback), state and agg_sv (history: heard).
+   Its effect is written as a function of that part of the state, so that it can be applied to the
+   current state (RecvSV) and to the state n calls of new_data() have just left (PublishThenRecv). *)
+Cur == [local |-> local, selfSeq |-> selfSeq, state |-> state, heard |-> heard, agg |-> agg]
+Published(n) == [local |-> [local EXCEPT ![Self] = selfSeq + n], selfSeq |-> selfSeq + n,
+                 state |-> "Steady", heard |-> Zero, agg |-> Zero]
+
 \* last.sup: the step started in Suppress
+\* last.pn: publications made in the step before the packet was handled (PublishThenRecv; what the packet
+\*          over-claims, which entries are older ... is judged on the published state s)
 \* es: the reading of p the step took (meaningful when acc). For a vector that names a node twice (dup):
 \*   rdg     the accepted vector v is a reading of what the packet says: for every node one of the sequence
 \*           numbers the packet lists for it (0 for a node it does not list)
 \*   notmax  ... and not the entry-wise largest reading
 \*   och     p over-claims, but not in the entries a reader who keeps the last entry of every node sees
 \* again / againA: p is the packet most recently ignored / accepted
-LastRecv(p, acc, r, es) ==
+LastRecvOn(s, a, pn, p, acc, r, es) ==
   LET ges == GoodEs(p)
       dup == HasDupEs(ges)
-      older == OlderEntries(es, local)
-      oc == Overclaims(p, selfSeq)
+      older == OlderEntries(es, s.local)
+      oc == Overclaims(p, s.selfSeq)
       v == IF acc /\ dup THEN Merge(Zero, es) ELSE Vec(p)
-  IN  [a |-> "RecvSV", n |-> r, acc |-> acc, dec |-> Decodable(p),
-       dmg |-> (dup \/ \E i \in 1..Len(p.es) : ~Good(p.es[i])),
+  IN  [a |-> a, n |-> r, pn |-> pn, acc |-> acc, dec |-> Decodable(p),
+       dmg |-> (dup \/ Lenient(p) \/ \E i \in 1..Len(p.es) : ~Good(p.es[i])), len |-> Lenient(p),
        oc |-> oc, v |-> v, sup |-> (state = "Suppress"),
        old |-> older # {}, old0 |-> 0 \in older,
        dup |-> dup,
@@ -231,97 +270,131 @@ LastRecv(p, acc, r, es) ==
                                                   IN  IF S = {} THEN v[n] = 0 ELSE v[n] \in S),
        notmax |-> (acc /\ dup /\ Newer(Vec(p), v)),
        och |-> (dup /\ oc /\ LET lst == Resolve(ges, LastReading(ges))
-                             IN  ~(\E i \in 1..Len(lst) : lst[i].id = Self /\ lst[i].seq > selfSeq)),
+                             IN  ~(\E i \in 1..Len(lst) : lst[i].id = Self /\ lst[i].seq > s.selfSeq)),
        again |-> (Remember /\ p = mem.rej), againA |-> (Remember /\ p = mem.acc)]
-LastOther(a, n) == [a |-> a, n |-> n, acc |-> FALSE, dec |-> FALSE, dmg |-> FALSE, oc |-> FALSE, v |-> Zero,
+LastOther(a, n) == [a |-> a, n |-> n, pn |-> 0, acc |-> FALSE, dec |-> FALSE, dmg |-> FALSE, len |-> FALSE, oc |-> FALSE, v |-> Zero,
                     sup |-> (state = "Suppress"), old |-> FALSE, old0 |-> FALSE,
                     dup |-> FALSE, rdg |-> TRUE, notmax |-> FALSE, och |-> FALSE, again |-> FALSE, againA |-> FALSE]
 
-Ignore(p, r) ==
-  /\ UNCHANGED <<local, selfSeq, state, heard, agg>>
-  /\ timer' \in KeepTimer
-  /\ out' = <<>> /\ missed' = 0
-  /\ last' = LastRecv(p, FALSE, r, GoodEs(p))
-  /\ Mem(p, FALSE)
+(* What the handler leaves behind: the new values of the variables it owns, and
+     tk      what it did to next_sync_timing: "same" untouched (also in Mode "open"), "keep" untouched
+             (Mode "open": C18 does not fix it), "sup" / "sync" a fresh suppression / periodic timer
+     missed  on_missing_data calls
+     cb      publications made inside the callback (they are announced at once: the caller decides how) *)
+HRes(l, q, st, h, a, tk, ms, cb) ==
+  [local |-> l, selfSeq |-> q, state |-> st, heard |-> h, agg |-> a, tk |-> tk, missed |-> ms, cb |-> cb]
+TimerOf(tk, j) == IF tk = "same" THEN {timer} ELSE IF tk = "keep" THEN KeepTimer
+                  ELSE IF tk = "sup" THEN SupTimers(j) ELSE SyncTimers(j)
+\* m sync Interests for a burst of publications that ends at own sequence number q (vector l): the last one
+\* carries the final vector
+BurstOuts(l, q, ms) == { IF m = 0 THEN <<>> ELSE [i \in 1..m |-> [l EXCEPT ![Self] = q - m + i]] : m \in ms }
 
-\* the callback runs last: r > 0 publications inside it (new_data: own entry, state Steady,
+HIgnore(s) == { HRes(s.local, s.selfSeq, s.state, s.heard, s.agg, "keep", 0, 0) }
+
+\* es: the reading of p that counts.
+\* The callback runs last: r > 0 publications inside it (new_data: own entry, state Steady,
 \* next_sync_timing = 0) override whatever the handler decided about suppression and timers,
 \* and on_timer wakes up at once
-ProcessAndPublish(p, j, r, l2, es) ==
-  /\ selfSeq' = selfSeq + r
-  /\ local' = [l2 EXCEPT ![Self] = selfSeq + r]
-  /\ missed' = 1
-  /\ \E m \in (IF Mode = "impl" THEN {1} ELSE 1..r) :
-       out' = [i \in 1..m |-> [l2 EXCEPT ![Self] = selfSeq + r - m + i]]
-  /\ state' = "Steady" /\ heard' = Zero /\ agg' = Zero
-  /\ timer' \in SyncTimers(j)
-  /\ last' = LastRecv(p, TRUE, r, es)
-  /\ Mem(p, TRUE)
+HProcess(s, r, es) ==
+  LET l2 == Merge(s.local, es)
+      ms == IF l2 # s.local THEN 1 ELSE 0
+  IN  IF r > 0 /\ l2 # s.local
+      THEN { HRes([l2 EXCEPT ![Self] = s.selfSeq + r], s.selfSeq + r, "Steady", Zero, Zero, "sync", 1, r) }
+      ELSE IF s.state = "Steady"
+      THEN { IF en THEN HRes(l2, s.selfSeq, "Suppress", DictOf(es), DictOf(es), "sup", ms, 0)
+                   ELSE HRes(l2, s.selfSeq, "Steady", Zero, Zero, "sync", ms, 0) :
+             en \in (IF Mode = "impl" THEN {NeedNotif(s.local, es)}
+                     ELSE IF Outdated(s.local, es) THEN {TRUE} ELSE AnyEnter) }
+      ELSE { HRes(l2, s.selfSeq, "Suppress", MaxV(s.heard, DictOf(es)), Aggregate(s.agg, l2, es), "keep", ms, 0) }
 
-\* es: the reading of p that counts
-Process(p, j, r, es) ==
-  LET l2 == Merge(local, es)
-  IN  IF r > 0 /\ l2 # local THEN ProcessAndPublish(p, j, r, l2, es) ELSE
-      /\ local' = l2
-      /\ missed' = (IF l2 # local THEN 1 ELSE 0)
-      /\ out' = <<>>
-      /\ UNCHANGED selfSeq
-      /\ IF state = "Steady"
-         THEN \E en \in (IF Mode = "impl" THEN {NeedNotif(local, es)}
-                         ELSE IF Outdated(local, es) THEN {TRUE} ELSE AnyEnter) :
-                IF en THEN /\ state' = "Suppress"
-                           /\ heard' = DictOf(es) /\ agg' = DictOf(es)
-                           /\ timer' \in SupTimers(j)
-                      ELSE /\ state' = "Steady"
-                           /\ heard' = Zero /\ agg' = Zero
-                           /\ timer' \in SyncTimers(j)
-         ELSE /\ state' = "Suppress"
-              /\ heard' = MaxV(heard, DictOf(es))
-              /\ agg' = Aggregate(agg, l2, es)
-              /\ timer' \in KeepTimer
-      /\ last' = LastRecv(p, TRUE, r, es)
-      /\ Mem(p, TRUE)
-
-DevNoSeqEnabled(p) ==
+DevNoSeqEnabled(s, p) ==
   /\ "noSeq" \in Dev /\ p.k = "sv"
   /\ LET es == WithId(p.es) IN
        /\ \E i \in 1..Len(es) : ~HasSeq(es[i])
-       /\ ~OverclaimIn(es, selfSeq)
+       /\ ~OverclaimIn(es, s.selfSeq)
        /\ ~(\E i \in 1..Len(es) : es[i].id = Self /\ ~HasSeq(es[i]))   \* that one fails in the first loop
-       /\ Merge(local, BeforeNoSeq(es)) # local                        \* otherwise same as "reject"
+       /\ Merge(s.local, BeforeNoSeq(es)) # s.local                    \* otherwise same as "reject"
 
-DevNoSeq(p, r) ==
-  /\ local' = Merge(local, BeforeNoSeq(WithId(p.es)))
-  /\ UNCHANGED <<selfSeq, state, heard, agg, timer>>
-  /\ out' = <<>> /\ missed' = 0
-  /\ last' = LastRecv(p, FALSE, r, GoodEs(p))
-  /\ Mem(p, FALSE)
+HDevNoSeq(s, p) ==
+  { HRes(Merge(s.local, BeforeNoSeq(WithId(p.es))), s.selfSeq, s.state, s.heard, s.agg, "same", 0, 0) }
 
-RecvChoices(p) ==
-  {"norm"} \cup (IF Decodable(p) /\ ~OverclaimIn(WithId(p.es), selfSeq)
-                    /\ (IF Mode = "impl" THEN \E i \in 1..Len(p.es) : HasId(p.es[i]) /\ ~HasSeq(p.es[i])
+RecvChoices(s, p) ==
+  {"norm"} \cup (IF Decodable(p) /\ ~OverclaimIn(WithId(p.es), s.selfSeq)
+                    /\ (IF Mode = "impl" THEN Lenient(p) \/ \E i \in 1..Len(p.es) : HasId(p.es[i]) /\ ~HasSeq(p.es[i])
                                          ELSE Damaged(p))
                  THEN {"reject"} ELSE {})
-           \cup (IF DevNoSeqEnabled(p) THEN {"devNoSeq"} ELSE {})
+           \cup (IF DevNoSeqEnabled(s, p) THEN {"devNoSeq"} ELSE {})
+
+\* nothing of p can be taken: not a state vector, no entry, or it over-claims
+Hopeless(s, p) == p.k \notin {"sv", "svl"} \/ p.es = <<>> \/ OverclaimIn(WithId(p.es), s.selfSeq)
+
+\* sync_handler on s, choice c (\in RecvChoices(s, p)), r publications inside the callback:
+\* the set of [h |-> what it leaves behind, es |-> the reading of p it took, acc |-> p was accepted]
+Handle(s, p, c, r) ==
+  LET hopeless == Hopeless(s, p)
+      ges == GoodEs(p)
+      dup == HasDupEs(ges)
+      ds == IF ~dup THEN {[n \in Nodes |-> 1]}
+            ELSE IF Mode = "impl" \/ hopeless \/ c # "norm" THEN {LastReading(ges)} ELSE AllReadings(ges)
+  IN  UNION { LET es == IF dup THEN Resolve(ges, d) ELSE ges
+                  raises == ~hopeless /\ Merge(s.local, es) # s.local
+              IN  \* the reaction is part of the stimulus only where the callback can fire
+                  IF (raises \/ r = 0) /\ s.selfSeq + r <= MaxSeq
+                  THEN (IF c = "devNoSeq" THEN { [h |-> x, es |-> ges, acc |-> FALSE] : x \in HDevNoSeq(s, p) }
+                        ELSE IF hopeless \/ c = "reject" THEN { [h |-> x, es |-> ges, acc |-> FALSE] : x \in HIgnore(s) }
+                        ELSE { [h |-> x, es |-> es, acc |-> TRUE] : x \in HProcess(s, r, es) })
+                  ELSE {} :
+              d \in ds }
 
 \* the jitter parameter is part of the stimulus; it is fixed to 0 where no choice can sample a timer
 RecvSV(p, j, c, r) ==
   /\ Hinted
   /\ More /\ Count
-  /\ c \in RecvChoices(p)
-  /\ LET hopeless == p.k # "sv" \/ p.es = <<>> \/ OverclaimIn(WithId(p.es), selfSeq)
-         ges == GoodEs(p)
-         dup == HasDupEs(ges)
-     IN  \E d \in (IF ~dup THEN {[n \in Nodes |-> 1]}
-                   ELSE IF Mode = "impl" \/ hopeless \/ c # "norm" THEN {LastReading(ges)} ELSE AllReadings(ges)) :
-           LET es == IF dup THEN Resolve(ges, d) ELSE ges
-               raises == ~hopeless /\ Merge(local, es) # local
-           IN  /\ (hopeless \/ state = "Suppress") => j = 0
-               /\ ~raises => r = 0      \* the reaction is part of the stimulus only where the callback can fire
-               /\ selfSeq + r <= MaxSeq
-               /\ IF c = "devNoSeq" THEN DevNoSeq(p, r)
-                  ELSE IF hopeless \/ c = "reject" THEN Ignore(p, r)
-                  ELSE Process(p, j, r, es)
+  /\ c \in RecvChoices(Cur, p)
+  /\ (Hopeless(Cur, p) \/ state = "Suppress") => j = 0
+  /\ \E x \in Handle(Cur, p, c, r) :
+       /\ local' = x.h.local /\ selfSeq' = x.h.selfSeq
+       /\ state' = x.h.state /\ heard' = x.h.heard /\ agg' = x.h.agg
+       /\ timer' \in TimerOf(x.h.tk, j)
+       /\ missed' = x.h.missed
+       /\ out' \in BurstOuts(x.h.local, x.h.selfSeq,
+                             IF x.h.cb = 0 THEN {0} ELSE IF Mode = "impl" THEN {1} ELSE 1..x.h.cb)
+       /\ last' = LastRecvOn(Cur, "RecvSV", 0, p, x.acc, r, x.es)
+       /\ Mem(p, x.acc)
+
+(* new_data() n times, then sync_handler, and only then the timer task: the handler finds the state the
+   publications left (Steady, own entry raised, next_sync_timing = 0) and must leave the pending
+   announcement alone. e: "late" the Interest(s) go out after the packet was handled (on_timer's wake-up:
+   they carry the merged vector, callback publications included; the expiry branch also ends a suppression
+   period the packet has just started - Mode "open": or the period goes on); "early" (Mode "open" only) they
+   went out with the publication, the rest is RecvSV on the published state. *)
+PublishThenRecv(n, p, j, c, r, e) ==
+  /\ Hinted
+  /\ More /\ Count
+  /\ selfSeq + n <= MaxSeq
+  /\ e \in (IF Mode = "impl" THEN {"late"} ELSE {"late", "early"})
+             \cup (IF "postponed" \in Dev THEN {"devPostponed"} ELSE {})
+  /\ c \in RecvChoices(Published(n), p)
+  /\ \E x \in Handle(Published(n), p, c, r) :
+       /\ local' = x.h.local /\ selfSeq' = x.h.selfSeq
+       /\ missed' = x.h.missed
+       \* the deviation needs a handler that set next_sync_timing, and no publication after that
+       /\ e = "devPostponed" => (x.h.tk \in {"sup", "sync"} /\ x.h.cb = 0)
+       /\ \E st \in (IF e \in {"early", "devPostponed"} THEN {x.h.state}
+                     ELSE IF Mode = "impl" THEN {"Steady"} ELSE {"Steady", x.h.state}) :
+            /\ state' = st
+            /\ heard' = (IF st = "Steady" THEN Zero ELSE x.h.heard)
+            /\ agg' = (IF st = "Steady" THEN Zero ELSE x.h.agg)
+       /\ timer' \in (IF e = "devPostponed" THEN TimerOf(x.h.tk, j) ELSE SyncTimers(j))
+       /\ IF e = "devPostponed"
+          THEN out' = <<>>
+          ELSE IF e = "late"
+          THEN out' \in BurstOuts(x.h.local, x.h.selfSeq, IF Mode = "impl" THEN {1} ELSE 1..(n + x.h.cb))
+          ELSE \E o1 \in BurstOuts(Published(n).local, selfSeq + n, 1..n) :
+                 \E o2 \in BurstOuts(x.h.local, x.h.selfSeq, IF x.h.cb = 0 THEN {0} ELSE 1..x.h.cb) :
+                   out' = o1 \o o2
+       /\ last' = LastRecvOn(Published(n), "PublishThenRecv", n, p, x.acc, r, x.es)
+       /\ Mem(p, x.acc)
 
 (* on_timer, TimeoutError branch *)
 FireChoices ==
@@ -381,6 +454,8 @@ InitWith(s0, t0) ==
   /\ hint = NoHint
 
 JitterSet == IF Mode = "impl" THEN Jitter ELSE {0}
+\* (the replay graph - TickEnds - varies the jitter sample with RecvSV / Publish / TimerFire; PublishThenRecv takes the smallest)
+PreJitterSet == IF TickEnds THEN {CHOOSE x \in JitterSet : \A y \in JitterSet : x <= y} ELSE JitterSet
 Init == \E s0 \in InitSeqs : \E j \in JitterSet :
           \E t0 \in (IF Mode = "impl" THEN {SyncBase + j} ELSE 0..MaxT) : InitWith(s0, t0)
 
@@ -390,12 +465,20 @@ Next == \/ \E p \in Packets, j \in JitterSet, c \in {"norm", "reject", "devNoSeq
         \/ \E j \in JitterSet, c \in {"norm", "skip", "devAgg"} : TimerFire(j, c)
         \/ \E n \in 1..MaxBurst, j \in JitterSet, m \in 1..MaxBurst : Publish(n, j, m)
         \/ \E d \in 1..MaxT : Tick(d)
+        \/ \E n \in 1..MaxPre, p \in PrePackets, j \in PreJitterSet, c \in {"norm", "reject", "devNoSeq"}, r \in 0..MaxReact,
+              e \in {"late", "early", "devPostponed"} : PublishThenRecv(n, p, j, c, r, e)
 
 Spec == Init /\ [][Next]_vars
 
 -----------------------------------------------------------------------------
 (* Properties of C18 (action properties: they relate a state to its successor) *)
 IsRecv == last'.a = "RecvSV"
+\* n publications, then a packet handled before the timer task ran
+IsPTR == last'.a = "PublishThenRecv"
+\* ... what the publications alone leave behind
+PubSeq == selfSeq + last'.pn
+PubLocal == [local EXCEPT ![Self] = PubSeq]
+CbPubPTR == IsPTR /\ missed' = 1 /\ last'.n > 0
 \* the application published inside the missing-data callback of this step
 CbPub == IsRecv /\ missed' = 1 /\ last'.n > 0
 Others == Nodes \ {Self}
@@ -431,8 +514,9 @@ OverclaimIgnored ==
 
 \* "the missing-data callback fires for a received vector iff that vector raised some entry"
 MissingIffRaised ==
-  [][ /\ IsRecv => (missed' = 1 <=> \E n \in Others : local'[n] # local[n])
-      /\ ~IsRecv => missed' = 0 ]_vars
+  [][ /\ missed' \in {0, 1}
+      /\ (IsRecv \/ IsPTR) => (missed' = 1 <=> \E n \in Others : local'[n] # local[n])
+      /\ ~(IsRecv \/ IsPTR) => missed' = 0 ]_vars
 
 \* the publish clause for publications made inside the missing-data callback (re-entrancy)
 CallbackPublishEmits ==
@@ -449,10 +533,37 @@ PublishEmitsFullVector ==
         /\ local' = [local EXCEPT ![Self] = selfSeq']
         /\ out' # <<>> /\ out'[Len(out')] = local' ]_vars
 
+\* the clauses above for a packet handled right after n publications, before the timer task ran: the
+\* publications count first (own entry; an over-claim is judged against the published sequence number; they
+\* end a suppression period), then the vector is merged
+PublishThenRecvMerges ==
+  [][ IsPTR =>
+        /\ selfSeq' = (IF CbPubPTR THEN PubSeq + last'.n ELSE PubSeq)
+        /\ last'.acc => (local' = [MaxV(PubLocal, last'.v) EXCEPT ![Self] = selfSeq'] /\ last'.rdg)
+        /\ ~last'.acc => (local' = PubLocal /\ missed' = 0)
+        /\ (last'.dec /\ ~last'.dmg /\ ~last'.oc) => last'.acc
+        /\ (~last'.dec \/ last'.oc) => ~last'.acc
+        /\ last'.oc => (state' = "Steady" /\ heard' = Zero) ]_vars
+
+\* "publishing ... promptly emits a sync Interest carrying the full vector" - also when a sync Interest is
+\* handled before the timer task gets to run: within the step; every Interest carries a full vector (own
+\* entry: one of the published sequence numbers; the others as they were before or after the merge); the
+\* last one carries the final own sequence number and either the final vector or - announced before the
+\* packet was handled - the vector as published
+PublishThenRecvAnnounces ==
+  [][ IsPTR =>
+        /\ out' # <<>>
+        /\ \A i \in 1..Len(out') :
+              /\ out'[i][Self] \in (selfSeq + 1)..selfSeq'
+              /\ \A n \in Others : out'[i][n] \in {local[n], local'[n]}
+        /\ \/ out'[Len(out')] = local'
+           \/ (~CbPubPTR /\ out'[Len(out')] = PubLocal) ]_vars
+
 \* heard is the merge of the vectors accepted since the state became Suppress
 HeardIsMerge ==
   [][ /\ (IsRecv /\ last'.acc /\ state' = "Suppress") =>
             heard' = (IF state = "Suppress" THEN MaxV(heard, last'.v) ELSE last'.v)
+      /\ (IsPTR /\ state' = "Suppress") => (last'.acc /\ heard' = last'.v)
       /\ (IsRecv /\ ~last'.acc) => heard' = heard
       /\ (IsRecv /\ state = "Suppress" /\ ~CbPub) => state' = "Suppress"
       /\ last'.a = "Tick" => (heard' = heard /\ state' = state) ]_vars
@@ -482,9 +593,10 @@ EmitsOnlyLocal ==
                   them, so they must be the sequence numbers the vector announces: selfSeq+1 .. selfSeq'
    CallbackSaw    local_sv as an application sees it inside on_missing_data: the received vector is
                   merged completely before the callback fires "for that vector" (the own entry still
-                  has its old value: publications made inside the callback come after)            *)
+                  has its old value - after the publications of PublishThenRecv: those were made
+                  before the packet was handled - publications made inside the callback come after)  *)
 PublishedSeqs == [i \in 1..(selfSeq' - selfSeq) |-> selfSeq + i]
-CallbackSaw == IF missed' = 1 THEN <<[local' EXCEPT ![Self] = selfSeq]>> ELSE <<>>
+CallbackSaw == IF missed' = 1 THEN <<[local' EXCEPT ![Self] = selfSeq + last'.pn]>> ELSE <<>>
 
 -----------------------------------------------------------------------------
 (* Vacuity witnesses. The situations the properties talk about must occur; because the properties
@@ -495,7 +607,9 @@ WitnessNames == <<"SupEmit", "SupNoEmit", "OverclaimWouldRaise", "Incomparable",
                   "DamagedAccepted", "DamagedRejected", "UndecodableInSup", "Burst", "PublishInSup",
                   "SteadyEmit", "HeardInSup", "EnterSup", "ActRecvSV", "ActPublish", "ActTimerFire", "ActTick",
                   "OutdatedZero", "CallbackPublish", "CallbackPublishInSup", "CallbackPublishTwice",
-                  "DupAccepted", "DupOverclaimHidden", "DupNotMax", "AgainAccepted", "AgainOutdated">>
+                  "DupAccepted", "DupOverclaimHidden", "DupNotMax", "AgainAccepted", "AgainOutdated",
+                  "ActPublishThenRecv", "PTRNotOutdated", "PTROutdated", "PTRRaises", "PTRCallbackPublish",
+                  "PTRInSup", "PTRCaughtUp", "PTRStillOverclaims", "PTRIgnored", "LenientAccepted", "LenientRejected">>
 WBase == 9000
 ASSUME \A i \in 1..Len(WitnessNames) : TLCSet(WBase + i, 0)
 Seen(i, cond) == (cond /\ TLCGet(WBase + i) = 0) => (PrintT(<<"WITNESS", WitnessNames[i]>>) /\ TLCSet(WBase + i, 1))
@@ -530,5 +644,21 @@ Witnesses ==
       \* (Remember only) the vector that was ignored last time is repeated and now raises an entry
       /\ Seen(25, IsRecv /\ last'.again /\ last'.acc /\ missed' = 1)
       \* (Remember only) the vector that was accepted last time is repeated, is outdated now and starts suppression
-      /\ Seen(26, IsRecv /\ last'.againA /\ last'.acc /\ last'.old /\ state = "Steady" /\ state' = "Suppress") ]_vars
+      /\ Seen(26, IsRecv /\ last'.againA /\ last'.acc /\ last'.old /\ state = "Steady" /\ state' = "Suppress")
+      \* (MaxPre > 0 only) a packet handled between n publications and the run of the timer task:
+      /\ Seen(27, IsPTR)
+      \* ... an accepted vector that is not outdated for the published state (sync.py: the branch that restarts the periodic timer)
+      /\ Seen(28, IsPTR /\ last'.acc /\ ~last'.old /\ missed' = 0)
+      \* ... one that is (sync.py: the branch that enters suppression)
+      /\ Seen(29, IsPTR /\ last'.acc /\ last'.old)
+      /\ Seen(30, IsPTR /\ missed' = 1)
+      /\ Seen(31, CbPubPTR)
+      /\ Seen(32, IsPTR /\ state = "Suppress" /\ last'.acc)
+      \* ... a vector that over-claimed before the publications and does not after them
+      /\ Seen(33, IsPTR /\ last'.acc /\ last'.v[Self] > selfSeq)
+      /\ Seen(34, IsPTR /\ last'.oc)
+      /\ Seen(35, IsPTR /\ ~last'.dec)
+      \* (alphabets with kind "svl") a vector in a non-canonical encoding is read and raises an entry / is ignored
+      /\ Seen(36, IsRecv /\ last'.len /\ last'.acc /\ missed' = 1)
+      /\ Seen(37, IsRecv /\ last'.len /\ last'.dec /\ ~last'.oc /\ ~last'.acc) ]_vars
 =============================================================================
